@@ -32,6 +32,9 @@ def cases(ctx):
             ws = ws[:5] + rng.sample(ws[5:], 20)
         yield {'kind': 'cnf', 'G': G, 'words': ws}
     for i in range(40 if not thorough else 400):
+        G = gen.near_cnf_cfg(rng)
+        yield {'kind': 'any', 'G': G, 'words': [w for w in gen.all_words(G['Sigma'], 3)][:20]}
+    for i in range(40 if not thorough else 400):
         G = gen.unit_chain_cfg(rng)
         yield {'kind': 'any', 'G': G, 'words': [w for w in gen.all_words(G['Sigma'], 3)][:20]}
     for i in range(300 if not thorough else 4000):
